@@ -64,14 +64,15 @@ def run(ctx, scratch):
                     nr = nc = m
                     if len(spec['coo']) < 2:
                         continue
-                side = ['row', 'col', 'both'][rep % 3]
+                # square cases (rep = 2, 5, 8, ...) cycle through row-only / column-only / both sides as well
+                side = ['row', 'col', 'both'][(rep // 3) % 3 if square else rep % 3]
                 opts = cases.make_opts(rng, d, nr, nc, True, want_side=side)
                 if square:
                     if not (d['has_force'] or d['seeds'] in ('weights', 'values', 'labels', 'sources')):
                         continue      # no way to declare a square matrix bipartite for this entry point
                     # a square biadjacency is declared either by force_bipartite or, where the entry point takes per-side
                     # seeds / sources, just by giving them (source_row / values_col ... imply the bipartite treatment)
-                    if not (d['seeds'] in ('weights', 'values', 'labels', 'sources') and rep % 2 == 0):
+                    if not (d['seeds'] in ('weights', 'values', 'labels', 'sources') and (rep // 3) % 4 != 3):
                         opts['force_bipartite'] = True
                 if d['seeded']:
                     opts.setdefault('params', {})['random_state'] = 3
